@@ -232,7 +232,7 @@ def check_C12(ctx):
                                                             b"def t { x = 1 }\ndef t { x = 2 }\nbind t:first -> struct\nbind t:last -> struct\nbind t:all -> slice\nprint 3\n"]
     from . import interp as _interp
     progs = _interp.drop_excluded(ctx, progs)
-    ccases = [dict(id="conc%d" % k, progs=[p.hex() for p in progs], n=ctx.n(8, 32)) for k in range(ctx.n(2, 6))]
+    ccases = [dict(id="conc%d" % k, progs=[p.hex() for p in progs], n=ctx.n(8, 32), cold=(k == 0)) for k in range(ctx.n(2, 6))]
     cres, craces, crc = probe_race(ctx, "concurrent", ccases, "race_conc")
     if craces:
         ctx.violation("data race reported among concurrent callers (%d reports)" % len(craces),
@@ -244,7 +244,7 @@ def check_C12(ctx):
         if not r:
             ctx.violation("concurrent callers: the probe died", dict(id=c["id"]), key="conc-crash", theorem="C12_execute_readonly")
             continue
-        if r["a_class"] != "ok" or r["b_class"] != "ok" or r["a_diff"] or r["b_diff"] or r["b_out"]:
+        if r["a_class"] != "ok" or r["b_class"] != "ok" or r["a_diff"] or r["b_diff"] or r["b_out"] or r.get("u_diff"):
             ctx.violation("concurrent callers influenced each other's results: %s" % {k: r[k] for k in r if k != "id"},
                           dict(progs=[p.decode("utf8", "replace")[:80] for p in progs][:5]), impl=r,
                           theorem="C12_execute_readonly", key="conc-diff")
